@@ -36,7 +36,7 @@ func (g *c01gen) literal(kind string, canonical bool) interface{} {
 	case "string", "bcp47", "rfc2045", "rfc5988":
 		return pick(r, []string{"plain text", "en", "text/html", "a b c", "", "ünïcode"})
 	case "anyURI":
-		return pick(r, []string{"https://example.com/a", "http://other.example:8080/x/y?q=1#f", "urn:isbn:0451450523", "mailto:a@example.com"})
+		return pick(r, []string{"https://example.com/a", "http://other.example:8080/x/y?q=1#f", "urn:isbn:0451450523", "mailto:a@example.com", "https://example.com/page?page=true&min_id=0&b=%20x"})
 	case "boolean":
 		if !canonical && r.chance(1, 2) {
 			return float64(r.intn(2))
@@ -102,7 +102,7 @@ var literalSweep = map[string][]sweepVal{
 	"@float":              {{float64(0), true}, {float64(-1000), true}, {float64(999), true}},
 	"@nonnegativeinteger": {{float64(0), true}, {float64(1), true}, {float64(4999), true}},
 	"@string":             {{"plain text", true}, {"", true}, {"ünïcode", true}},
-	"@anyuri":             {{"https://example.com/a", true}, {"http://other.example:8080/x/y?q=1#f", true}, {"urn:isbn:0451450523", true}, {"mailto:a@example.com", true}},
+	"@anyuri":             {{"https://example.com/a", true}, {"http://other.example:8080/x/y?q=1#f", true}, {"urn:isbn:0451450523", true}, {"mailto:a@example.com", true}, {"https://example.com/page?page=true&min_id=0", true}, {"https://example.com/p?z=1&a=2#frag", true}},
 	"@bcp47":              {{"en", true}, {"en-US", true}},
 	"@rfc2045":            {{"text/html", true}},
 	"@rfc5988":            {{"me", true}},
@@ -189,6 +189,16 @@ func (g *c01gen) doc(ty *tblType, depth int, canonical, top bool) map[string]int
 	}
 	if r.chance(3, 4) {
 		d["id"] = fmt.Sprintf("https://example.com/%s/%d", strings.ToLower(ty.Name), r.intn(1000))
+		if r.chance(1, 4) { // a query whose parameters are not in alphabetical order, a fragment
+			d["id"] = d["id"].(string) + "?page=true&min_id=0#top"
+		}
+	}
+	if r.chance(1, 3) { // <name>Map of a property that is no natural-language one: an extension member like any other
+		f := ty.Fields[r.intn(len(ty.Fields))]
+		pn := propJSONName(f.GoName)
+		if p, ok := g.props[pn]; ok && !p.HasMap && pn != "" {
+			d[pn+"Map"] = "not a language map"
+		}
 	}
 	nprops := r.intn(6)
 	if !top {
